@@ -575,3 +575,26 @@ Theorem C03_frame_500_head : forall c r n,
     /\ In (client_field err_header) fields.
 Proof. exact frame_response_500_head. Qed.
 Print Assumptions C03_frame_500_head.
+
+(* ---------------------------------------------------------------------------------------------
+   From the arguments of write_soon to the socket (Proof/TaskChanOut.v: Model/Task.v composed with the
+   byte-level output queue Model/ChanOut.v, which runs write_soon / _flush_some over the buffer model
+   of C17).  The theorems above read [wire (o_writes res)] -- the byte strings and handed-over file
+   buffers a task gives to channel.write_soon, in order -- as a client reads it.  For EVERY list of
+   write_soon arguments, every configuration of the channel (STRBUF_LIMIT, outbuf_overflow,
+   outbuf_high_watermark, send_bytes, any positive sendbuf_len) and every behaviour of the socket
+   during each call, what the socket accepted followed by what is still queued is exactly that wire
+   string, and a drained queue means the client holds all of it: the framing theorems are statements
+   about the bytes the output queue delivers. *)
+From WV Require Model.Buffers Model.ChanOut Proof.ChanOut Proof.TaskChanOut.
+Module CO := WV.Model.ChanOut.
+Module COP := WV.Proof.ChanOut.
+Module TCO := WV.Proof.TaskChanOut.
+
+Theorem C03_writes_reach_socket : forall (cc : CO.cfg) (ws : list witem) (anss : list (list CO.answer)),
+  COP.cfg_ok cc ->
+  let q := CO.crun cc CO.chan_new (TCO.cops_of ws anss) in
+  snd q ++ COP.cabs (fst q) = wire ws /\
+  (COP.cabs (fst q) = [] -> snd q = wire ws).
+Proof. exact TCO.writes_reach_socket_both. Qed.
+Print Assumptions C03_writes_reach_socket.
